@@ -15,11 +15,16 @@ values are shared, and describe them as DATA in lean/PyrollModel/Gen/C12.lean:
   `HookHost.evaluate_and_set_hooks`, `reevaluate_cache`, `Hook.__get__`/`__set__`, the overrides in
   DiskElementUnit / BaseRollPass / SymmetricRollPass / TwoRollPass / ThreeRollPass / Roll) as
   (function, receiver, what) triples,
-* what `Unit.solve` returns and what `init_solve` / `SymmetricRollPass.__init__` store.
+* what `Unit.solve` returns and what `init_solve` / `SymmetricRollPass.__init__` store,
+* the FORM of `Unit.init_solve`'s treatment of an out-profile left by an earlier solve (`Heap.Reuse`): no `else:`
+  branch of `if not self.out_profile:` = `.keep`; an `else:` branch that deletes the outdated public non-root-hook
+  entries, sets the incoming profile's public non-root-hook entries and fills in missing root-hook entries =
+  `.handOver` (compared as an AST, up to the names of local variables); the model's `ensureOut` takes the value.
 
 Only whitelisted shapes are translated; anything else is a `Gap` (broken tie).
 """
 import ast
+import copy
 import os
 
 from .pyexpr import write_if_changed
@@ -419,6 +424,67 @@ def stores(repo):
 
 
 # -------------------------------------------------------------------------------------------------
+# the form of init_solve: what happens to an out-profile that a previous solve left
+# -------------------------------------------------------------------------------------------------
+_REUSE_THEN = "self.out_profile = self.OutProfile(self, in_profile)"
+_REUSE_ELSE = """
+roots = {h.name for h in root_hooks if isinstance(self.out_profile, h.owner)}
+handed_over = {k: v for k, v in in_profile.__dict__.items() if not k.startswith('_')}
+outdated = [k for k in self.out_profile.__dict__ if not k.startswith('_') and k not in roots and k not in handed_over]
+for k in outdated:
+    delattr(self.out_profile, k)
+for k, v in handed_over.items():
+    if k not in roots or k not in self.out_profile.__dict__:
+        setattr(self.out_profile, k, v)
+"""
+
+
+class _Alpha(ast.NodeTransformer):
+    """rename the names BOUND inside the statements (assignment / loop / comprehension targets) to v0, v1, … in order
+    of first binding; free names (`self`, `in_profile`, `root_hooks`, builtins) stay"""
+
+    def __init__(self, stmts):
+        self.map = {}
+        for st in stmts:
+            for n in ast.walk(st):
+                if isinstance(n, ast.Name) and isinstance(n.ctx, ast.Store) and n.id not in self.map:
+                    self.map[n.id] = f"v{len(self.map)}"
+
+    def visit_Name(self, n):
+        return ast.copy_location(ast.Name(id=self.map.get(n.id, n.id), ctx=n.ctx), n)
+
+
+def _canon(stmts):
+    stmts = [st for st in stmts
+             if not (isinstance(st, ast.Expr) and isinstance(st.value, ast.Constant) and isinstance(st.value.value, str))]
+    a = _Alpha(stmts)
+    return [ast.dump(a.visit(copy.deepcopy(st)), annotate_fields=True, include_attributes=False) for st in stmts]
+
+
+def reuse_form(repo):
+    """`.keep` / `.handOver` (see the module docstring); any other shape of the statement is a Gap"""
+    unit = _find_class(_parse(repo, "unit/unit.py"), "Unit")
+    init = _find_func(unit, "init_solve")
+    if init is None:
+        raise Gap("Unit.init_solve not found")
+    ifs = [n for n in ast.walk(init) if isinstance(n, ast.If) and _src(n.test) == "not self.out_profile"]
+    if len(ifs) != 1 or ifs[0] not in init.body:
+        raise Gap("Unit.init_solve: expected exactly one top-level `if not self.out_profile:`")
+    node = ifs[0]
+    if init.body.index(node) != len(init.body) - 1:
+        raise Gap("Unit.init_solve: statements after `if not self.out_profile:` "
+                  + "; ".join(_src(st)[:60] for st in init.body[init.body.index(node) + 1:]))
+    if _canon(node.body) != _canon(ast.parse(_REUSE_THEN).body):
+        raise Gap("Unit.init_solve: the out-profile is not created by `" + _REUSE_THEN + "`")
+    if not node.orelse:
+        return ".keep"
+    if _canon(node.orelse) == _canon(ast.parse(_REUSE_ELSE).body):
+        return ".handOver"
+    raise Gap("Unit.init_solve: `else:` branch of `if not self.out_profile:` of an unknown form: "
+              + " / ".join(_src(st).replace("\n", " ")[:80] for st in node.orelse))
+
+
+# -------------------------------------------------------------------------------------------------
 # who binds a hook value cache
 # -------------------------------------------------------------------------------------------------
 def cache_bindings(repo):
@@ -491,6 +557,7 @@ def generate(repo):
     writes = solve_writes(repo)
     st = stores(repo)
     cb = cache_bindings(repo)
+    reuse = reuse_form(repo)
 
     L = []
     L.append("/- GENERATED by driver/translate/c12_effects.py from pyroll/core (unit/unit.py, hooks.py, roll_pass/*.py,")
@@ -531,6 +598,11 @@ def generate(repo):
     L.append("    pyroll/core: (file:function, receiver, bound expression) -/")
     L.append("def cacheBindings : List (String × String × String) :=\n  ["
              + ",\n   ".join(f"({_s(a)}, {_s(b)}, {_s(c)})" for a, b, c in cb) + "]")
+    L.append("")
+    L.append("/-- `Unit.init_solve`, `if not self.out_profile: … [else: …]`: what is done with the out-profile of a previous")
+    L.append("    solve (`.keep` = no else branch; `.handOver` = outdated entries deleted, the incoming profile's public")
+    L.append("    non-root-hook entries set, missing root-hook entries filled in) -/")
+    L.append(f"def outReuse : Reuse := {reuse}")
     L.append("")
     L.append("end Gen.C12")
     return "\n".join(L) + "\n"
